@@ -308,7 +308,8 @@ def _check_sharded_decl(opt_init, params, state, ptd, fails, out):
         for i, ((shape, dt), d) in enumerate(zip(_leaves_sd(state), dl)):
             if d is None or tuple(d[1]) != shape or d[2] != dt:
                 path = jax.tree_util.keystr(jax.tree_util.tree_leaves_with_path(state)[i][0])
-                fails.append(f"sharded: leaf {path} initialised as {(shape, dt)} but declared {d}")
+                dtype_only = d is not None and tuple(d[1]) == shape
+                fails.append(("DTYPE " if dtype_only else "") + f"sharded: leaf {path} initialised as {(shape, dt)} but declared {d}")
                 break
     if ts != tp_:
         fails.append(f"sharded: partition-spec tree structure differs from the initial state's: {str(tp_)[:300]} vs {str(ts)[:300]}")
